@@ -87,7 +87,7 @@ package pypi
 //@   requires wfRange(pr)
 //@   ensures and: result == (forall i int :: 0 <= i && i < len(pr.constraints) ==> pr.constraints[i].matches(version))   [C02 C20]
 
-//@ lemma c20-equal [C20]: forall c *constraint, v1, v2 *Version :: trigger(c.matches(v1), c.matches(v2)) && c != nil && v1 != nil && v2 != nil && (c.operator == "==" || c.operator == "!=" || c.operator == "<" || c.operator == "<=" || c.operator == ">" || c.operator == ">=") && v1.Compare(v2) == 0 ==> c.matches(v1) == c.matches(v2)
+//@ lemma c20-equal [C20]: forall c *constraint, v1, v2 *Version :: trigger(c.matches(v1), c.matches(v2)) && c != nil && v1 != nil && v2 != nil && (c.operator == "==" || c.operator == "!=" || c.operator == "<" || c.operator == "<=" || c.operator == ">" || c.operator == ">=" || c.operator == "notin") && v1.Compare(v2) == 0 ==> c.matches(v1) == c.matches(v2)
 //@ lemma c20-convex [C20]: forall c *constraint, a, b, d *Version :: trigger(c.matches(a), c.matches(d), a.Compare(b), b.Compare(d)) && c != nil && a != nil && b != nil && d != nil && (c.operator == "==" || c.operator == "!=" || c.operator == "<" || c.operator == "<=" || c.operator == ">" || c.operator == ">=") && c.operator != "!=" && a.Compare(b) <= 0 && b.Compare(d) <= 0 && c.matches(a) && c.matches(d) ==> c.matches(b)
 
 // ---- stored text (C18)
@@ -97,3 +97,26 @@ package pypi
 
 //@ func (*VersionRange).String
 //@   ensures text: result == arg0.original   [C18]
+
+// ---- specifier text to constraints (C02): a PEP 440 operator directly before a version; commas mean AND
+//@ func parseSingleConstraint
+//@   ensures op===: strings.HasPrefix(strings.TrimSpace(con), "===") && strings.TrimSpace(strings.TrimSpace(con)[3:]) != "" ==> result1 == nil && len(result0) == 1 && result0[0] != nil && result0[0].operator == "===" && result0[0].version == strings.TrimSpace(strings.TrimSpace(con)[3:])   [C02]
+//@   ensures empty===: strings.HasPrefix(strings.TrimSpace(con), "===") && strings.TrimSpace(strings.TrimSpace(con)[3:]) == "" ==> result1 != nil   [C02]
+//@   ensures op==: strings.HasPrefix(strings.TrimSpace(con), "==") && !strings.HasPrefix(strings.TrimSpace(con), "===") && strings.TrimSpace(strings.TrimSpace(con)[2:]) != "" && !strings.HasSuffix(strings.TrimSpace(strings.TrimSpace(con)[2:]), ".*") ==> result1 == nil && len(result0) == 1 && result0[0] != nil && result0[0].operator == "==" && result0[0].version == strings.TrimSpace(strings.TrimSpace(con)[2:])   [C02]
+//@   ensures empty==: strings.HasPrefix(strings.TrimSpace(con), "==") && !strings.HasPrefix(strings.TrimSpace(con), "===") && strings.TrimSpace(strings.TrimSpace(con)[2:]) == "" ==> result1 != nil   [C02]
+//@   ensures op!=: strings.HasPrefix(strings.TrimSpace(con), "!=") && strings.TrimSpace(strings.TrimSpace(con)[2:]) != "" && !strings.HasSuffix(strings.TrimSpace(strings.TrimSpace(con)[2:]), ".*") ==> result1 == nil && len(result0) == 1 && result0[0] != nil && result0[0].operator == "!=" && result0[0].version == strings.TrimSpace(strings.TrimSpace(con)[2:])   [C02]
+//@   ensures empty!=: strings.HasPrefix(strings.TrimSpace(con), "!=") && strings.TrimSpace(strings.TrimSpace(con)[2:]) == "" ==> result1 != nil   [C02]
+//@   ensures op<=: strings.HasPrefix(strings.TrimSpace(con), "<=") && strings.TrimSpace(strings.TrimSpace(con)[2:]) != "" ==> result1 == nil && len(result0) == 1 && result0[0] != nil && result0[0].operator == "<=" && result0[0].version == strings.TrimSpace(strings.TrimSpace(con)[2:])   [C02]
+//@   ensures empty<=: strings.HasPrefix(strings.TrimSpace(con), "<=") && strings.TrimSpace(strings.TrimSpace(con)[2:]) == "" ==> result1 != nil   [C02]
+//@   ensures op>=: strings.HasPrefix(strings.TrimSpace(con), ">=") && strings.TrimSpace(strings.TrimSpace(con)[2:]) != "" ==> result1 == nil && len(result0) == 1 && result0[0] != nil && result0[0].operator == ">=" && result0[0].version == strings.TrimSpace(strings.TrimSpace(con)[2:])   [C02]
+//@   ensures empty>=: strings.HasPrefix(strings.TrimSpace(con), ">=") && strings.TrimSpace(strings.TrimSpace(con)[2:]) == "" ==> result1 != nil   [C02]
+//@   ensures op<: strings.HasPrefix(strings.TrimSpace(con), "<") && !strings.HasPrefix(strings.TrimSpace(con), "<=") && strings.TrimSpace(strings.TrimSpace(con)[1:]) != "" ==> result1 == nil && len(result0) == 1 && result0[0] != nil && result0[0].operator == "<" && result0[0].version == strings.TrimSpace(strings.TrimSpace(con)[1:])   [C02]
+//@   ensures empty<: strings.HasPrefix(strings.TrimSpace(con), "<") && !strings.HasPrefix(strings.TrimSpace(con), "<=") && strings.TrimSpace(strings.TrimSpace(con)[1:]) == "" ==> result1 != nil   [C02]
+//@   ensures op>: strings.HasPrefix(strings.TrimSpace(con), ">") && !strings.HasPrefix(strings.TrimSpace(con), ">=") && strings.TrimSpace(strings.TrimSpace(con)[1:]) != "" ==> result1 == nil && len(result0) == 1 && result0[0] != nil && result0[0].operator == ">" && result0[0].version == strings.TrimSpace(strings.TrimSpace(con)[1:])   [C02]
+//@   ensures empty>: strings.HasPrefix(strings.TrimSpace(con), ">") && !strings.HasPrefix(strings.TrimSpace(con), ">=") && strings.TrimSpace(strings.TrimSpace(con)[1:]) == "" ==> result1 != nil   [C02]
+
+// lifting to whole ranges: an AND-range of comparator constraints treats versions that compare equal alike (the two
+// quantified sides are what Contains returns for v1 and v2, by its `and` clause)
+//@ lemma c20-range-equal [C20] uses c20-equal: forall pr *VersionRange, v1, v2 *Version :: pr != nil && v1 != nil && v2 != nil && wfRange(pr) && (forall i int :: 0 <= i && i < len(pr.constraints) ==> (pr.constraints[i].operator == "==" || pr.constraints[i].operator == "!=" || pr.constraints[i].operator == "<" || pr.constraints[i].operator == "<=" || pr.constraints[i].operator == ">" || pr.constraints[i].operator == ">=" || pr.constraints[i].operator == "notin")) && v1.Compare(v2) == 0 ==> ((forall i int :: 0 <= i && i < len(pr.constraints) ==> pr.constraints[i].matches(v1)) == (forall i int :: 0 <= i && i < len(pr.constraints) ==> pr.constraints[i].matches(v2)))
+// ... and the set a range without != accepts is convex in the order
+//@ lemma c20-range-convex [C20] uses c20-convex: forall pr *VersionRange, a, b, d *Version :: pr != nil && a != nil && b != nil && d != nil && wfRange(pr) && (forall i int :: 0 <= i && i < len(pr.constraints) ==> (pr.constraints[i].operator == "==" || pr.constraints[i].operator == "!=" || pr.constraints[i].operator == "<" || pr.constraints[i].operator == "<=" || pr.constraints[i].operator == ">" || pr.constraints[i].operator == ">=") && pr.constraints[i].operator != "!=") && a.Compare(b) <= 0 && b.Compare(d) <= 0 && (forall i int :: 0 <= i && i < len(pr.constraints) ==> pr.constraints[i].matches(a)) && (forall i int :: 0 <= i && i < len(pr.constraints) ==> pr.constraints[i].matches(d)) ==> (forall i int :: 0 <= i && i < len(pr.constraints) ==> pr.constraints[i].matches(b))
